@@ -28,14 +28,16 @@ import Driver.HUnify
 import Driver.HD13
 import Driver.HD02
 import Driver.HD03
+import Driver.HD03b
 import Driver.HD01
 import Driver.HD11
 import Driver.HD06
 import Driver.HD16
 import Driver.HD17
+import Driver.HD11b
 open CtyModel
 
-def handlers : List Handler := [handleTy, handleVal, handleNum, handleOps, handleFunc, handleSet, handleSetRules, handleRefine, handleGocty, handleStd, handleStdNum, handleMarks, handleMsgpack, handleJsonVal, handleStdlib, handleWF, handleHeap, handleCovers, handleC12, handleConvert, handleWalk, handleUnify, handleD13, handleD02, handleD03, handleD01, handleD11, handleD06, handleD16, handleD17]
+def handlers : List Handler := [handleTy, handleVal, handleNum, handleOps, handleFunc, handleSet, handleSetRules, handleRefine, handleGocty, handleStd, handleStdNum, handleMarks, handleMsgpack, handleJsonVal, handleStdlib, handleWF, handleHeap, handleCovers, handleC12, handleConvert, handleWalk, handleUnify, handleD13, handleD02, handleD03, handleD03b, handleD01, handleD11, handleD06, handleD16, handleD17, handleD11b]
 
 def handle (op : String) (args : List Sexp) : String :=
   match handlers.findSome? (fun h => h op args) with
